@@ -897,6 +897,23 @@ pub fn damaged_variants(
             }
             did = true;
         }
+        if flips_on && !s.is_empty() && aux.chance(1, 4) {
+            // dictionary damage: a protocol constant (ether type, ARPHRD
+            // value, ip number, ICMP type, length edge) instead of a random
+            // byte - exact 16-bit values are out of reach of bit flips
+            let i = aux.usize_range(0, s.len().min(24) - 1);
+            if aux.bool() && i + 1 < s.len() {
+                let v = dict16(aux);
+                s[i] = (v >> 8) as u8;
+                s[i + 1] = v as u8;
+            } else {
+                s[i] = *aux.pick(&[
+                    0u8, 1, 2, 3, 4, 5, 6, 8, 11, 12, 13, 14, 15, 17, 18, 41, 43, 44, 50, 51, 58, 59, 60,
+                    128, 129, 130, 131, 132, 133, 134, 135, 136, 137, 139, 140, 143, 253, 254, 255,
+                ]);
+            }
+            did = true;
+        }
         if trunc_on && (!did || aux.chance(1, 3)) {
             let cut = aux.usize_range(0, s.len());
             s.truncate(cut);
@@ -905,6 +922,26 @@ pub fn damaged_variants(
         out.push(s);
     }
     out
+}
+
+/// 16-bit protocol constants and edges.
+fn dict16(r: &mut Rng) -> u16 {
+    match r.below(6) {
+        // ether types
+        0 => *r.pick(&[0x0800u16, 0x86dd, 0x0806, 0x8035, 0x8100, 0x88a8, 0x9100, 0x88e5, 0x8847, 0x88cc, 0x0001, 0x0002, 0x0003, 0x0004, 0x000c, 0x00f7]),
+        // ARPHRD values (Linux if_arp.h): all ranges that are assigned
+        1 => {
+            let ranges: [(u16, u16); 8] = [(0, 32), (256, 283), (512, 520), (768, 805), (820, 827), (0xfffe, 0xffff), (37, 37), (280, 283)];
+            let (lo, hi) = *r.pick(&ranges);
+            r.range(u64::from(lo), u64::from(hi)) as u16
+        }
+        // small values: packet types, sizes, codes
+        2 => r.below(20) as u16,
+        // length edges
+        3 => *r.pick(&[0u16, 1, 7, 8, 19, 20, 39, 40, 59, 60, 0xff, 0x100, 0x1fff, 0x2000, 0x3fff, 0x7fff, 0x8000, 0xfffe, 0xffff]),
+        4 => r.u16() & 0x00ff,
+        _ => r.u16() & 0xff00,
+    }
 }
 
 // ======================================================================= C06
@@ -1059,6 +1096,20 @@ pub fn run_c01(seed: u64, run: u64, stats: &mut Stats, inspect: bool) -> Vec<Vio
                 let types = [1u8, 2, 3, 4, 128, 129, 133, 134, 135, 136, 137, 130, 131, 132, 143];
                 base[0] = types[round % types.len()];
                 base[1] = 0;
+            }
+            RKind::Arp => {
+                // address size extremes
+                let sizes = [(255u8, 255u8), (255, 254), (254, 255), (0, 0), (255, 0), (0, 255), (6, 4), (1, 1)];
+                let (hw, pr) = sizes[round % sizes.len()];
+                let mut b = base[..8.min(base.len())].to_vec();
+                if b.len() == 8 {
+                    b[4] = hw;
+                    b[5] = pr;
+                    let body = 2 * (usize::from(hw) + usize::from(pr));
+                    let mut fill = Rng::new(rs ^ 0xa59);
+                    b.extend_from_slice(&fill.bytes(body + 4));
+                    base = b;
+                }
             }
             _ => {}
         }
